@@ -2,6 +2,7 @@ package layout
 
 import (
 	"fmt"
+	"reflect"
 	"strings"
 
 	pr "github.com/benoitkugler/webrender/css/properties"
@@ -722,6 +723,7 @@ func (context *layoutContext) makePage(rootBox bo.BlockLevelBoxITF, pageType uti
 		contextOutOfFlow = context.brokenOutOfFlow
 	)
 	context.brokenOutOfFlow = newBrokenBoxes() // new map
+	outOfFlowProgress := false
 	for _, k := range contextOutOfFlow.keys {
 		v := contextOutOfFlow.values[k]
 		box, containingBlock := v.box, v.containingBlock
@@ -742,11 +744,16 @@ func (context *layoutContext) makePage(rootBox bo.BlockLevelBoxITF, pageType uti
 				&positionedBoxes, 0, v.resumeAt)
 		}
 		outOfFlowBoxes = append(outOfFlowBoxes, outOfFlowBox)
+		if !reflect.DeepEqual(outOfFlowResumeAt, v.resumeAt) {
+			outOfFlowProgress = true
+		}
 		if outOfFlowResumeAt != nil {
 			context.brokenOutOfFlow.set(outOfFlowBox, brokenBox{box, containingBlock, outOfFlowResumeAt})
 		}
 	}
 
+	nbRootChildren := len(rootBox.Box().Children)
+	_, inFlowIsFinished := resumeAt[nbRootChildren]
 	rootBox, tmp, _ := blockLevelLayout(context, rootBox, 0, resumeAt,
 		&initialContainingBlock.BoxFields, true, &positionedBoxes, &positionedBoxes, &adjoiningMargins, false, -1)
 	resumeAt = tmp.resumeAt
@@ -773,6 +780,13 @@ func (context *layoutContext) makePage(rootBox bo.BlockLevelBoxITF, pageType uti
 	}
 
 	context.finishBlockFormattingContext(rootBox)
+
+	if resumeAt == nil && len(context.brokenOutOfFlow.keys) != 0 && !pageType.Blank &&
+		(!inFlowIsFinished || outOfFlowProgress) {
+		// The in-flow content is finished, but floats or absolutely positioned boxes
+		// continue on the next page: resume after the last child of the root box.
+		resumeAt = tree.ResumeStack{nbRootChildren: nil}
+	}
 
 	page.Children = []Box{rootBox, footnoteArea}
 
